@@ -13,7 +13,7 @@
      coq/tfm   Ptail / tailS (weighted sums over the K-1 symbol cells)
      here      tail_c01: the word sum with the score of a word computed by C01's score_def
    E2EStatBridge proves them equal; all brackets below are stated with tail_c01. *)
-From Coq Require Import List Arith Bool Lia ZArith NArith QArith Qcanon Lqa Permutation.
+From Coq Require Import List Arith Bool Lia ZArith NArith QArith Qcanon Qabs Lqa Permutation.
 From LMBase Require Import Res ListX.
 From LMPwm Require Import GenComplement PwmModel PwmProofs PwmExact.
 From LMPwm Require C09 C10.
@@ -21,7 +21,11 @@ From LMDist Require DistModel DistInst DistTail C11.
 From LMTfm Require TfmNum TfmModel TfmSpec TfmProofs TfmLink C12 C13.
 From LMBase Require Import IEEE.
 From LMIo Require IoBase IoNom IoJaspar IoPrint.
-From LME2E Require Import E2EStatBridge E2EStatRevcomp E2EStatChain E2EStatProofs E2EStatScan E2EStatIo.
+From Coq.Strings Require Import Byte.
+From LMScan Require Import ScanModel ScanConcrete.
+From LMStripe Require NetModel.
+From LME2E Require Import E2EBridgeEncode E2EPipeline E2EProofs.
+From LME2E Require Import E2EStatBridge E2EStatRevcomp E2EStatChain E2EStatProofs E2EStatScan E2EStatFloat E2EStatFloatScan E2EStatIo.
 Import ListNotations.
 Local Open Scope nat_scope.
 
@@ -274,6 +278,89 @@ Proof.
   destruct Hok as (HK & _ & Hbg & Hnn & _ & Hlast).
   exact (tfm_threshold_scan K sm bg HK Hsm Hbg Hlast Hnn sq sd32 thr H Hhits Hsyms val tq eps L1 L2 p d Hc1 Hc2).
 Qed.
+
+(* ---------- the same with the link DISCHARGED and the hit list taken from the scanning pipeline ----------
+
+   The binary32 scoring matrix [pssm] (what ScoringMatrix holds) is read as a matrix of rationals / -inf
+   by pwm's f32_to_Q ([qmat]); the statistics (MEME-style table, TFM-PVALUE) are those of that rational
+   matrix in exact arithmetic (C11 / C13); the scanner is the whole pipeline of E2E.v
+   (text -> encode -> stripe -> configure -> Scanner::new -> next()*, any backend / arm / block size) on a
+   text WITHOUT the wildcard letter.  The threshold handed to the scanner is any finite binary32 number
+   within [eta] of the exact threshold tq (eta = 0 when tq is representable; otherwise the rounding of
+   `score(p) as f32`).  L1 is E2EStatFloat.ge_valQ (Flocq's Bcompare_correct), L2 is E2EStatFloat.fscore_error
+   (C01_fsum_error_bound transported to Q) with the explicit
+       eps_f32 K pssm = M * 2^-23 * sum over rows of max |symbol cell|
+   under the executable "no intermediate overflow" condition [no_overflow] (M <= 2^23, that sum <= 2^126).
+   Numeric hypothesis of the scanner: the executable conditioning predicate e2e_wc (C08).
+
+   MEME (t = ScoreDistribution::score(p), 0 < p < 1): no panic; every hit is a valid position whose EXACT
+   score s is >= t - eps and whose exact tail satisfies T(s + eps + dd) <= p; every valid position that is
+   not a hit has exact score < t + eps   (eps = eps_f32 + eta, dd = (M/2 + 1) / scale). *)
+Theorem stat_threshold_scan_meme :
+  forall (A : EM.abc) (C : nat) (p : EI.pipeline) (junk : nat -> EM.sym) (text : list byte)
+         (be : SA.backend) (old : SM.sseq) (pssm : list (list F32.t)) (am : arm) (thr : F32.t) (B : nat)
+         (bg : list Q) d offset scale (pv tq eta : Q),
+    A = GA.dna \/ A = GA.protein ->
+    1 <= C -> SA.backend_typed C be = true -> SS.wf_matrix C (SM.mat old) ->
+    Forall (no_wild A) text ->
+    1 <= length pssm -> Forall (fun row : list F32.t => length row = EM.a_K A) pssm ->
+    e2e_wc (EM.a_K A) pssm = true -> no_overflow (EM.a_K A) pssm = true -> 1 <= B ->
+    F32.is_finite thr = true -> (Qabs (valQ thr - tq) <= eta)%Q ->
+    length bg = EM.a_K A -> (last bg 0 == 0)%Q -> DT.bg_nonneg bg -> (DI.Qsum bg <= 1)%Q ->
+    DMo.build DI.QOps (dmat (qmat pssm)) bg = Ok d -> DMo.stage_a DI.QOps (dmat (qmat pssm)) = Ok (offset, scale) ->
+    (Z.of_nat (length pssm) * 1000 < DMo.i32_max)%Z ->
+    (0 < pv)%Q -> (pv < 1)%Q -> DMo.d_score DI.QOps d pv = Ok tq ->
+    let K := EM.a_K A in
+    let S := qmat pssm in
+    let M := length pssm in
+    let eps := (eps_f32 K pssm + eta)%Q in
+    let dd := ((inject_Z (Z.of_nat M) / 2 + 1) / scale)%Q in
+    exists (sq : list nat) (H : list (nat * F32.t)),
+      encode_nat p A junk text = Ok sq /\ length sq = length text /\
+      e2e_scan A C p junk text be old pssm am thr B = Ok H /\ NoDup (map fst H) /\
+      (forall i x, In (i, x) H ->
+         i + M <= length sq /\
+         exists s, score_c01 K S (window M i sq) = Some s /\ (tq - eps <= s)%Q /\
+                   (tail_c01 K S bg (s + eps + dd) <= pv)%Q) /\
+      (forall i, i + M <= length sq -> (forall x, ~ In (i, x) H) ->
+         exists s, score_c01 K S (window M i sq) = Some s /\ (s < tq + eps)%Q).
+Proof. exact text_threshold_meme. Qed.
+
+(* TFM-PVALUE (t = score of an Iteration of approximate_score(p), 0 < p <= 1, d = (M+2) granularity): the
+   same for the hits, and every non-hit scores below t + eps and, if it lies more than d under t, has
+   exact tail T(s - d) >= p: hits and non-hits are separated by the exact tail probability p up to the
+   explicit margins eps (binary32 summation) and d (granularity). *)
+Theorem stat_threshold_scan_tfm :
+  forall (A : EM.abc) (C : nat) (p : EI.pipeline) (junk : nat -> EM.sym) (text : list byte)
+         (be : SA.backend) (old : SM.sseq) (pssm : list (list F32.t)) (am : arm) (thr : F32.t) (B : nat)
+         (bg : list Q) perm (pv : Q) steps win it (eta : Q),
+    A = GA.dna \/ A = GA.protein ->
+    1 <= C -> SA.backend_typed C be = true -> SS.wf_matrix C (SM.mat old) ->
+    Forall (no_wild A) text ->
+    2 <= length pssm -> Forall (fun row : list F32.t => length row = EM.a_K A) pssm ->
+    e2e_wc (EM.a_K A) pssm = true -> no_overflow (EM.a_K A) pssm = true -> 1 <= B ->
+    TP.matrix_ok (EM.a_K A) (trows (qmat pssm)) bg ->
+    Permutation perm (seq 0 (length pssm)) -> (0 < pv)%Q -> (pv <= 1)%Q ->
+    TM.score_window0 LMTfm.TfmNum.NumQ (trows (qmat pssm)) perm = Ok win ->
+    In (Ok it) (TM.sc_run LMTfm.TfmNum.NumQ steps (trows (qmat pssm)) perm bg pv (1 # 10) win) ->
+    F32.is_finite thr = true -> (Qabs (valQ thr - TM.io_score it) <= eta)%Q ->
+    let K := EM.a_K A in
+    let S := qmat pssm in
+    let M := length pssm in
+    let tq := TM.io_score it in
+    let eps := (eps_f32 K pssm + eta)%Q in
+    let d := ((inject_Z (Z.of_nat M) + 2) * TM.io_gran it)%Q in
+    exists (sq : list nat) (H : list (nat * F32.t)),
+      encode_nat p A junk text = Ok sq /\ length sq = length text /\
+      e2e_scan A C p junk text be old pssm am thr B = Ok H /\ NoDup (map fst H) /\
+      (forall i x, In (i, x) H ->
+         i + M <= length sq /\
+         exists s, score_c01 K S (window M i sq) = Some s /\ (tq - eps <= s)%Q /\
+                   (tail_c01 K S bg (s + eps + d) <= pv)%Q) /\
+      (forall i, i + M <= length sq -> (forall x, ~ In (i, x) H) ->
+         exists s, score_c01 K S (window M i sq) = Some s /\ (s < tq + eps)%Q /\
+                   ((s < tq - d)%Q -> (pv <= tail_c01 K S bg (s - d))%Q)).
+Proof. exact text_threshold_tfm. Qed.
 
 (* ================= (3) reverse complement ================= *)
 
